@@ -22,7 +22,7 @@ Proof.
   destruct (nth_error ths j) as [t|] eqn:Nj; [|discriminate].
   destruct (step V g (t_op t) (t_pc t) (t_loc t) inj) as [[[g' p'] l']|] eqn:E; [|discriminate]. inv St.
   destruct I as [Iops Iser Idone Ifresh Iin Ird Ifin Ind]. cbn [fst snd] in *.
-  assert (Tk : o_kind (t_op t) <> KGCGone).
+  assert (Tk : o_kind (t_op t) <> KGoneOld).
   { rewrite Forall_forall in OK. apply OK. rewrite <- Iops. apply in_map. eapply nth_error_In; eauto. }
   set (a := t_tract t).
   set (t' := {| t_op := t_op t; t_pc := p'; t_loc := l' |}).
@@ -190,3 +190,156 @@ Proof.
         destruct (o_kind (t_op t)); discriminate. }
       { eapply Ifin; eauto. }
 Qed.
+
+Lemma reachable_all_spawned : forall V g ops, init_g g -> reachable V (g, map new_thread ops).
+Proof.
+  intros V g ops Hg. induction ops as [|o ops IH] using rev_ind; cbn.
+  - apply R_init; auto.
+  - rewrite map_app. cbn. apply R_spawn. exact IH.
+Qed.
+
+Lemma sinv_init : forall V ops g, SInv V ops (fun a => at_ a g) (g, map new_thread ops) [] (fun a => at_ a g).
+Proof.
+  intros V ops g. split; cbn [fst snd].
+  - rewrite map_map. cbn. apply map_id.
+  - constructor. auto.
+  - intros i r [].
+  - intros i t H _. rewrite nth_error_map in H. destruct (nth_error ops i); inv H. reflexivity.
+  - intros i t H Hin. rewrite nth_error_map in H. destruct (nth_error ops i); inv H.
+    unfold t_inside, t_kind in Hin. cbn in Hin. destruct (o_kind o); discriminate.
+  - auto.
+  - intros i t H Hp. rewrite nth_error_map in H. destruct (nth_error ops i); inv H. discriminate.
+  - constructor.
+Qed.
+
+Lemma sinv_run : forall V ops x0, Forall ok_op ops ->
+  forall sched s ch xm, reachable V s -> SInv V ops x0 s ch xm ->
+    exists ch' xm', reachable V (run_sched V s sched) /\ SInv V ops x0 (run_sched V s sched) ch' xm'.
+Proof.
+  intros V ops x0 OK. induction sched as [|[i inj] r IH]; intros s ch xm R I; cbn.
+  - eauto.
+  - destruct (sys_step V s i inj) as [s'|] eqn:E.
+    + destruct (sinv_step V ops x0 s ch xm i inj s' R OK I E) as [ch' [xm' I']].
+      eapply IH; eauto. eapply R_step; eauto.
+    + eapply IH; eauto.
+Qed.
+
+(* serial equivalence, any number of tracts: every complete interleaved execution equals the serial execution of the
+   operations that got their lock, in the order in which they released it; all other operations were refused *)
+Theorem serial_equivalence_all_tracts : forall V ops g0 sched,
+    init_g g0 -> Forall ok_op ops ->
+    let s := run_sched V (g0, map new_thread ops) sched in
+    quiescent s ->
+    exists ch xf,
+      GSer V ops (fun a => at_ a g0) ch xf /\ (forall a, at_ a (fst s) = xf a) /\ NoDup (map fst ch) /\
+      (forall i r, In (i, r) ch -> exists t, nth_error (snd s) i = Some t /\ t_pc t = PDone /\ l_res (t_loc t) = r) /\
+      (forall i t, nth_error (snd s) i = Some t -> (exists r, In (i, r) ch) \/ refusal (o_kind (t_op t)) (l_res (t_loc t))).
+Proof.
+  intros V ops g0 sched Hg OK s Q.
+  destruct (sinv_run V ops (fun a => at_ a g0) OK sched (g0, map new_thread ops) [] (fun a => at_ a g0)
+                     (reachable_all_spawned V g0 ops Hg) (sinv_init V ops g0)) as [ch [xm [R I]]].
+  fold s in R, I. destruct I as [Iops Iser Idone Ifresh Iin Ird Ifin Ind].
+  exists ch, xm. repeat split; auto.
+  - intro a. apply Ird. intros i t Ht Hin _. unfold t_inside in Hin. rewrite (Q i t Ht) in Hin. destruct (t_kind t); discriminate.
+  - intros i t Ht. apply (Ifin i t Ht). apply (Q i t Ht).
+Qed.
+
+(* ---------- any order of overlapping readers is a witness: readers leave their tract as they found it ---------- *)
+Lemma lstep_reader : forall V x o p l inj x' p' l',
+    is_reader (o_kind o) = true -> lstep V x o p l inj = Some (x', p', l') -> x' = x.
+Proof.
+  intros V x o p l inj x' p' l' HR H. unfold lstep in H.
+  destruct (step V (embed_a (o_tract o) x) o p l inj) as [[[g' q] m]|] eqn:E; [|discriminate]. cbn in H. inv H.
+  rewrite (same_store_at _ _ (reader_pure _ _ _ _ _ _ _ _ _ HR E)). apply at_embed.
+Qed.
+
+Lemma lsteps_reader : forall V o c0 c1, is_reader (o_kind o) = true -> lsteps V o c0 c1 -> fst (fst c1) = fst (fst c0).
+Proof.
+  intros V o c0 c1 HR H. induction H; auto. cbn in *.
+  apply (lstep_reader _ _ _ _ _ _ _ _ _ HR) in H1. congruence.
+Qed.
+
+Lemma lsolo_reader : forall V o x r x', is_reader (o_kind o) = true -> lsolo V o x r x' -> x' = x.
+Proof. intros V o x r x' HR [l [H _]]. exact (lsteps_reader _ _ _ _ HR H). Qed.
+
+Lemma GSer_snoc_inv : forall V ops x0 ch i r x,
+    GSer V ops x0 (ch ++ [(i, r)]) x ->
+    exists x1 o v, GSer V ops x0 ch x1 /\ nth_error ops i = Some o /\ lsolo V o (x1 (o_tract o)) r v /\
+                   (forall b, x b = updf x1 (o_tract o) v b).
+Proof.
+  intros V ops x0 ch i r x H. inversion H; subst.
+  - exfalso. eapply app_cons_not_nil; eauto.
+  - match goal with E : _ ++ [_] = _ ++ [_] |- _ => apply app_inj_tail in E; destruct E as [-> E2]; inv E2 end. eauto 10.
+Qed.
+
+(* two adjacent readers of a serial chain may be swapped: release order and acquisition order are both witnesses *)
+Lemma GSer_swap_readers : forall V ops x0 ch i1 r1 i2 r2 x o1 o2,
+    nth_error ops i1 = Some o1 -> nth_error ops i2 = Some o2 ->
+    is_reader (o_kind o1) = true -> is_reader (o_kind o2) = true ->
+    GSer V ops x0 ((ch ++ [(i1, r1)]) ++ [(i2, r2)]) x -> GSer V ops x0 ((ch ++ [(i2, r2)]) ++ [(i1, r1)]) x.
+Proof.
+  intros V ops x0 ch i1 r1 i2 r2 x o1 o2 N1 N2 R1 R2 H.
+  destruct (GSer_snoc_inv _ _ _ _ _ _ _ H) as [xb [oo2 [v2 [Hb [Nb [Sb Eb]]]]]]. rewrite N2 in Nb. inv Nb.
+  destruct (GSer_snoc_inv _ _ _ _ _ _ _ Hb) as [xa [oo1 [v1 [Ha [Na [Sa Ea]]]]]]. rewrite N1 in Na. inv Na.
+  pose proof (lsolo_reader _ _ _ _ _ R1 Sa) as ->. pose proof (lsolo_reader _ _ _ _ _ R2 Sb) as ->.
+  assert (Hxb : forall b, xb b = xa b).
+  { intro b. rewrite Ea. unfold updf. destruct (b =? o_tract oo1) eqn:Q; auto. apply Z.eqb_eq in Q. subst. reflexivity. }
+  assert (Hx : forall b, x b = xa b).
+  { intro b. rewrite Eb. unfold updf. destruct (b =? o_tract oo2) eqn:Q; [apply Z.eqb_eq in Q; subst|]; apply Hxb. }
+  eapply GSer_snoc with (x1 := xa) (o := oo1) (v := xa (o_tract oo1)); eauto.
+  - eapply GSer_snoc with (x1 := xa) (o := oo2) (v := xa (o_tract oo2)); eauto.
+    + rewrite <- Hxb. exact Sb.
+    + intro b. unfold updf. destruct (b =? o_tract oo2) eqn:Q; auto. apply Z.eqb_eq in Q. subst. reflexivity.
+  - intro b. rewrite Hx. unfold updf. destruct (b =? o_tract oo1) eqn:Q; auto. apply Z.eqb_eq in Q. subst. reflexivity.
+Qed.
+
+(* ---------- non-vacuity: solo runs compute what the operations do ---------- *)
+Lemma ls_trans : forall V o x y z, lsteps V o x y -> lsteps V o y z -> lsteps V o x z.
+Proof. intros V o x y z H1 H2. induction H2; auto. eapply ls_snoc; eauto. Qed.
+
+Lemma ls_cons : forall V o x p l inj x' p' l' z,
+    body_pc p = true -> lstep V x o p l inj = Some (x', p', l') -> lsteps V o (x', p', l') z ->
+    lsteps V o (x, p, l) z.
+Proof. intros. eapply ls_trans; [|eauto]. eapply ls_snoc; eauto. apply ls_refl. Qed.
+
+Ltac solo_run := repeat (first [ apply ls_refl | eapply ls_cons with (inj := 0); [reflexivity | vm_compute; reflexivity | ] ]).
+
+Example solo_write :
+  lsolo repaired op_write (at_ 0 g_one_tract) [c18_e_NoError]
+        (Some 1, Some {| f_fd := 1; f_ver := Some 2; f_data := [9; 2] |}, Some 2).
+Proof. eexists. split; [solo_run | reflexivity]. Qed.
+
+(* a write followed by a conditional bump carrying the stamp the write left (1): the chain the theorem speaks about *)
+Example serial_chain_example :
+  exists x2, GSer repaired [op_write; op_setversion_stale] (fun a => at_ a g_one_tract)
+                  [(0%nat, [c18_e_NoError]); (1%nat, [c18_e_NoError; 3])] x2.
+Proof.
+  eexists.
+  change [(0%nat, [c18_e_NoError]); (1%nat, [c18_e_NoError; 3])]
+    with (([] ++ [(0%nat, [c18_e_NoError])]) ++ [(1%nat, [c18_e_NoError; 3])]).
+  eapply GSer_snoc with (o := op_setversion_stale); [ | reflexivity | | intro b; reflexivity].
+  - eapply GSer_snoc with (o := op_write); [constructor; reflexivity | reflexivity | | intro b; reflexivity].
+    eexists. split; [solo_run | reflexivity].
+  - eexists. split; [solo_run | reflexivity].
+Qed.
+
+(* ---------- the lock-free GC gone path is NOT serializable against a long copy-in ---------- *)
+(* GCTracts(gone) calls removeTract without the tract lock: lookup under s.lock, Disk.Delete, map delete.  When that
+   falls between the lookup and the Delete of PullTract's own removeTract, the copy-in's Delete fails with
+   ErrNoSuchTract and PullTract returns that error although its only source delivered: in both serial orders it
+   returns NoError. *)
+Definition op_pull : opd :=
+  {| o_kind := KPull; o_tract := 0; o_a1 := 3; o_a2 := 0; o_a3 := 0; o_data := []; o_srcs := [(c18_e_NoError, [5; 6])]; o_pack := [] |}.
+Definition res_of (s : sys) (i : nat) : option (list Z) :=
+  match nth_error (snd s) i with Some t => Some (l_res (t_loc t)) | None => None end.
+Definition s_pull_gone : sys := (g_one_tract, [new_thread op_pull; new_thread op_gone]).
+Definition sched_of (i : nat) (n : nat) : list (nat * Z) := repeat (i, 0) n.
+
+Lemma gcgone_not_serializable :
+  let inter := run_sched repaired s_pull_gone (sched_of 0 8 ++ sched_of 1 4 ++ sched_of 0 12) in
+  let serA := run_sched repaired s_pull_gone (sched_of 0 40 ++ sched_of 1 10) in
+  let serB := run_sched repaired s_pull_gone (sched_of 1 10 ++ sched_of 0 40) in
+  all_done inter = true /\ all_done serA = true /\ all_done serB = true /\
+  res_of inter 0 = Some [c18_e_NoSuchTract] /\ res_of serA 0 = Some [c18_e_NoError] /\ res_of serB 0 = Some [c18_e_NoError] /\
+  at_ 0 (fst inter) = (None, None, Some 2).
+Proof. vm_compute. repeat split; reflexivity. Qed.
